@@ -305,6 +305,49 @@ def exists_param_named(cx, fw, cond, depth=0, scope=None):
             # |p| helper(p, &cand)
             r = _helper_pred(cx, bt, elem)
         return r
+    if c['k'] == 'MethodCall' and c['method'] == 'contains' and len(c['args']) == 1:
+        # `used.contains(&cand)` where `used` collects, in a loop over the type's generic parameters, the identifier of every type /
+        # const parameter (`filter_map(..).collect()` is that loop after N7)
+        from ..terms import strip_refs as _sr, analyse_iter as _ai
+        r = _sr(c['recv'])
+        if r['k'] != 'Path' or len(r['path']['segs']) != 1:
+            return None
+        d = (sc or fw.root).lookup(r['path']['s']) if (sc or fw.root) is not None else None
+        if d is None:
+            cands_ = [d_ for d_ in fw.defs if d_.name == r['path']['s']]
+            d = cands_[0] if len(cands_) == 1 else None
+        if d is None or d.kind != 'let' or d.assigns:
+            return None
+        # `let used = { let mut acc = ..; for .. { acc.push(..) } acc };` (the N7 form of `.. .collect()`): the pushes go to `acc`
+        if d.init is not None and d.init['k'] == 'Block' and d.init.get('stmts') and d.init['stmts'][-1]['k'] == 'Expr' and not d.init['stmts'][-1]['semi'] \
+                and d.init['stmts'][-1]['expr']['k'] == 'Path' and d.init['stmts'][0]['k'] == 'Local':
+            inner_name = d.init['stmts'][-1]['expr']['path']['s']
+            inner = [d_ for d_ in fw.defs if d_.name == inner_name and d_.kind == 'let' and d_.init is d.init['stmts'][0].get('init')]
+            if len(inner) == 1:
+                d = inner[0]
+        kinds = set()
+        pushes = [ev for ev in fw.events if ev.kind == 'mcall' and ev.method == 'push' and len(ev.args) == 1 and _sr(ev.recv)['k'] == 'Path'
+                  and ev.scope.lookup(_sr(ev.recv)['path']['s']) is d]
+        if not pushes:
+            return None
+        for ev in pushes:
+            loops = [x for x in ev.ctx if x['k'] == 'for']
+            if len(loops) != 1 or 'generics.params' not in es(loops[0]['iter']).replace(' ', ''):
+                return None
+            arms = [x for x in ev.ctx if x['k'] == 'arm']
+            kind = None
+            for a_ in arms:
+                ps = __import__('sa.syn', fromlist=['pat_s']).pat_s(a_['pat'])
+                for kn in ('Type', 'Const', 'Lifetime'):
+                    if ps.startswith('GenericParam::' + kn) or ps.startswith('syn::GenericParam::' + kn):
+                        kind = kn
+            vt = tm.term(ev.args[0], ev.scope)
+            while isinstance(vt, tuple) and vt and ((vt[0] == 'mcall' and len(vt) == 3 and vt[2] in ('to_string', 'clone', 'to_owned')) or (vt[0] in ('ref', 'Some') and len(vt) == 2)):
+                vt = vt[1]
+            if kind is None or not (isinstance(vt, tuple) and vt[0] == 'field' and vt[2] == 'ident'):
+                return None
+            kinds.add(kind)
+        return kinds, tm.term(_sr(c['args'][0]), sc or fw.root)
     if c['k'] == 'Call' and c['func']['k'] == 'Path' and depth < 2:
         fns = cx.crate.find_fn(fw.fn.module, [x['id'] for x in c['func']['path']['segs']], fw.fn.self_ty)
         if len(fns) != 1:
@@ -482,6 +525,39 @@ def run(cx, tier='quick'):
                 continue
             prefixes.setdefault(f[:-2], ev)
             rep.ok('GEN-INJ', '%s|format=%s' % (fn.qname, f))
+    # templates that are not interpolated as token streams but re-parsed into a syn value (`syn::parse2(quote!(::core::cmp::Ord))`: the
+    # trait path handed to the bound computation, type keys, ..) end up in the generated code all the same: their paths obey the
+    # same rule
+    visited = set()
+    for fn in handlers:
+        for s_ in collect(cx, fn)[0]:
+            visited.add(id(s_.tmpl))
+    for t in cx.gm.templates:
+        if id(t) in visited or id(t) in getattr(cx.gm, 'inlined_templates', ()):
+            continue
+        c, ast, forms = cx.gm.parse_any(t, ['path', 'type', 'wherepreds', 'expr'])
+        if c is None:
+            continue
+
+        def cb2(role, node, extra, t=t):
+            if role != 'path':
+                return
+            segs = node['segs']
+            first = segs[0]['id']
+            inst = 'path=%s' % node['s']
+            if node['global']:
+                if first not in ALLOWED_ROOTS and not is_marker(first):
+                    rep.bad('TPL-ROOT', t.fn.qname, inst, 'absolute path rooted at `::%s` (only `::core` exists in #![no_std] crates)' % first, t.file, t.line, {'template': t.text()[:200]})
+                else:
+                    rep.ok('TPL-ABS', '%s|scalar|%s' % (t.fn.qname, inst))
+                return
+            if is_marker(first) or first in PRIMS or first in ('Self', 'self'):
+                rep.ok('TPL-ABS', '%s|scalar|%s' % (t.fn.qname, inst))
+                return
+            rep.bad('TPL-ABS', t.fn.qname, inst,
+                    'unqualified `%s` in a re-parsed template (it becomes part of the generated code) resolves at the derive site (shadowable; not available as written in every environment); write `::core::…`' % node['s'],
+                    t.file, t.line, {'template': t.text()[:200]})
+        visit(ast, c, cb2)
     rep.extra['sites'] = total_sites
     rep.extra['templates'] = len(cx.gm.templates)
     rep.extra['handlers'] = len(handlers)
@@ -512,6 +588,8 @@ def check_method_capture(cx, rep):
         sites, _bad = collect(cx, fn)
         fixed = set()
         calls = []
+        named_binders = []
+        user_exprs = []
         for s in sites:
             if s.ast is None:
                 continue
@@ -519,6 +597,13 @@ def check_method_capture(cx, rep):
             def cb(role, node, extra, s=s):
                 if role == 'patident' and not is_marker(node['name']) and not node['name'][:1].isupper() and node['name'] != '_':
                     fixed.add(node['name'])
+                elif role == 'patident' and is_marker(node['name']) and cx.gm.hole_class(s.tmpl, marker_name(node['name'])) != 'acc':
+                    named_binders.append((s, marker_name(node['name'])))
+                elif role == 'path' and extra == 'expr' and len(node['segs']) == 1 and is_marker(node['segs'][0]['id']) and not node['global']:
+                    h_ = marker_name(node['segs'][0]['id'])
+                    t_ = s.tmpl.hole_term(h_)
+                    if any(isinstance(x, tuple) and x and x[0] == 'field' and len(x) == 3 and x[2] in ('expression',) for x in _st(t_)):
+                        user_exprs.append((s, h_))
                 elif role == 'call':
                     f_ = node['func']
                     if f_['k'] == 'Path' and len(f_['path']['segs']) == 1 and is_marker(f_['path']['segs'][0]['id']) and not f_['path']['global']:
@@ -542,6 +627,25 @@ def check_method_capture(cx, rep):
                         s.tmpl.file, s.tmpl.line, {'template': s.tmpl.text()[:200]})
             else:
                 rep.ok('METHOD-CAPTURE', '%s|call=#%s (no template-fixed local in scope)' % (fn.qname, h))
+        # a user-written expression (`Default(expression = ..)`) pasted into a generated function that also binds locals — fixed ones, or
+        # ones named after the user's own fields — is evaluated in their scope: `timeout() * 2` next to a field `timeout` no longer means
+        # the function
+        if user_exprs:
+            from .binders import flatten
+            raw = []
+            for s_, h_ in named_binders:
+                t_ = s_.tmpl.hole_term(h_)
+                if not (isinstance(t_, tuple) and t_ and t_[0] == 'format_ident'):
+                    raw.append(h_)
+            n += 1
+            if raw or fixed:
+                s0, h0 = user_exprs[0]
+                rep.bad('METHOD-CAPTURE', fn.qname, 'user-expression-under=%s' % ','.join(sorted(set(raw)) + sorted(fixed)),
+                        'the user\'s `expression` is interpolated (`#%s`) inside generated code that binds locals (%s): a name in the expression that coincides with one of them '
+                        'refers to the local, not to the item the user meant' % (h0, ', '.join(['the field names via #%s' % r_ for r_ in sorted(set(raw))] + sorted(fixed))),
+                        s0.tmpl.file, s0.tmpl.line, {'template': s0.tmpl.text()[:200]})
+            else:
+                rep.ok('METHOD-CAPTURE', '%s|user expressions are evaluated where no generated local is in scope' % fn.qname)
     return n
 
 
